@@ -1097,6 +1097,10 @@ StylesheetExecutionContextDefault::beginCreateXResultTreeFrag(XalanNode*    sour
 
     pushOutputContext(theFormatter);
 
+    // What is built is a tree of its own, whatever the instruction
+    // around this one may create...
+    pushCopyTextNodesOnly(false);
+
     theFormatter->startDocument();
 
     pushCurrentNode(sourceNode);
@@ -1124,6 +1128,7 @@ StylesheetExecutionContextDefault::endCreateXResultTreeFrag()
 
     theXResultTreeFrag->setExecutionContext(this);
 
+    popCopyTextNodesOnly();
     popCurrentNode();
     popOutputContext();
 
